@@ -34,6 +34,9 @@ def debruijn(alphabet, n):
     return word + word[:n - 1]
 
 
+LONG = 'lg'
+
+
 def contigs():
     """[(name, sequence)].  'db' carries every 3-letter word over ACGTN.  The 'eX' contigs put a G at positions
     0/1 and a C at the last two positions next to every letter X (contexts truncated at both contig ends; one
@@ -43,6 +46,8 @@ def contigs():
         out.append((f'e{x}', f'{x}GTAC{x}'))
     out.append(('eGC', 'GGCC'))              # G at 0 and 1, C at the last two positions
     out.append(('lc', 'tacgccagctggaca'))
+    # a contig longer than any plausible reference-window cache: molecules are tiled over it in sequence
+    out.append((LONG, debruijn('ACGT', 5)))
     return out
 
 
